@@ -7,6 +7,7 @@ import (
 	"sync"
 	"sync/atomic"
 	"time"
+	"unsafe"
 
 	"k8s.io/klog/v2"
 
@@ -36,6 +37,10 @@ type HClock struct {
 	// callback then runs to its end without parking again.
 	LogYield bool
 	free     bool
+
+	start    time.Time
+	mono     bool
+	wallSkew time.Duration
 }
 
 // HTimer states.
@@ -67,7 +72,56 @@ type HCallback struct {
 }
 
 // NewHClock starts the clock at t.
-func NewHClock(t time.Time) *HClock { return &HClock{now: t} }
+func NewHClock(t time.Time) *HClock { return &HClock{now: t, start: t} }
+
+// NewHClockMono starts a clock whose times carry a monotonic reading, like the ones time.Now()
+// returns (the virtual time is the monotonic one). WallSkew then models steps of the wall clock
+// (settimeofday, an NTP step): the times handed to the library show a wall clock that is off by
+// WallSkew while their monotonic reading is unaffected. Elapsed() is the virtual time since the start.
+func NewHClockMono() *HClock {
+	t := time.Now()
+	return &HClock{now: t, start: t, mono: true}
+}
+
+// Elapsed returns the virtual time since the clock was started.
+func (c *HClock) Elapsed() time.Duration { c.mu.Lock(); defer c.mu.Unlock(); return c.now.Sub(c.start) }
+
+// StepWall moves the wall clock by d without touching the monotonic clock (mono clocks only).
+func (c *HClock) StepWall(d time.Duration) {
+	c.mu.Lock()
+	c.wallSkew += d
+	c.mu.Unlock()
+}
+
+// rawTime mirrors time.Time's layout (wall: flag, 33 bits of seconds since 1885, 30 bits of
+// nanoseconds when the flag is set; ext: the monotonic reading).
+type rawTime struct {
+	wall uint64
+	ext  int64
+	loc  *time.Location
+}
+
+// skewed returns t with its wall-clock reading shifted by whole seconds of skew and its monotonic
+// reading untouched. Self-checked: the result must differ from t by exactly that in Unix() and by
+// nothing in Sub().
+func skewed(t time.Time, skew time.Duration) time.Time {
+	secs := int64(skew / time.Second)
+	if secs == 0 {
+		return t
+	}
+	u := t
+	r := (*rawTime)(unsafe.Pointer(&u))
+	if r.wall>>63 == 0 {
+		return t.Add(skew) // no monotonic reading: nothing to keep apart
+	}
+	const mask = uint64(1)<<33 - 1
+	sec := int64((r.wall >> 30) & mask)
+	r.wall = r.wall&^(mask<<30) | (uint64(sec+secs)&mask)<<30
+	if u.Unix()-t.Unix() != secs || u.Sub(t) != 0 {
+		panic("glue: time.Time layout is not what skewed() assumes")
+	}
+	return u
+}
 
 // Now implements the clock interface. The first call made by a callback that is being
 // started parks until Finish.
@@ -77,7 +131,7 @@ func (c *HClock) Now() time.Time {
 		c.expectNow = false
 		cb := c.InFlight
 		cb.SawNow, cb.Parked = c.now, true
-		v := c.now
+		v := skewed(c.now, c.wallSkew)
 		if c.free { // released by Finish while parked at an earlier yield point: run on
 			c.mu.Unlock()
 			return v
@@ -89,7 +143,7 @@ func (c *HClock) Now() time.Time {
 		<-release
 		return v
 	}
-	v := c.now
+	v := skewed(c.now, c.wallSkew)
 	c.mu.Unlock()
 	return v
 }
